@@ -1,5 +1,4 @@
-//go:build verif
-
+//go:build verif && verif_c04
 package excelize
 
 import (
